@@ -42,6 +42,16 @@ SPEC: dict[str, list[Unit]] = {
             Fn("PairingToZ1d.pair", self_attrs={"left": I, "right": I, "_omitting_zero": I}),
         ]),
     ],
+    "C03": [
+        Unit("rpylib/process/coupling/couplingmarkovchain.py", [
+            Fn("CouplingSimulation.probability_to_right_jump",
+               params={"grid": "obj", "mass": "fn:Rat → Rat → Rat", "increment": I}, ret=R,
+               const_exprs={"grid.origin_coordinate": ("origin", I)},
+               opaque_index={"grid": ("grid_at", I, R)},
+               opaque_fns={"grid.middle": ("middle", [R, R], R), "grid.left_point": ("left_point", [I], R),
+                           "grid.right_point": ("right_point", [I], R)}),
+        ]),
+    ],
     "C09": [
         Unit("rpylib/model/levymodel/mixed/hem.py", [
             Fn("_HEMLevyMeasure.integrate", **(_HEM := dict(
